@@ -184,7 +184,10 @@ Definition init_a_cast (target : vtype) (p : pval) : M pval :=
     do c <- ret (cond_wrap (match pv_kind p with KBoolOp => true | KLit _ true => fx_bool_int fx | _ => false end) (rd p));
     ret (mkpv (PIte c (lit_pure target 1) (lit_pure target 0)) target KExec (pv_tmps p))
   else
-    ret (mkpv (if fx_cast_fill fx then PCast (vt_w target) (if vt_sg (pv_ty p) then PMsb (rd p) else PBool false) (rd p)
+    (* the repair only concerns widening casts: for narrowing / same width the fill bit is irrelevant and the
+       faithful term is kept, so that the switch "matters" exactly when the defect can show *)
+    ret (mkpv (if fx_cast_fill fx && (vt_w (pv_ty p) <? vt_w target)%N
+               then PCast (vt_w target) (if vt_sg (pv_ty p) then PMsb (rd p) else PBool false) (rd p)
                else cast_il_exec target (pv_ty p) (rd p)) target KExec (pv_tmps p)).
 
 Definition promotion_cast (p : pval) : M pval :=
@@ -605,7 +608,9 @@ Definition compound_src (a : asgop) (dest src : pval) : M pval :=
   match a with
   | AAssign => ret src
   | AAdd | ASub | AMul | ADiv =>
-      do pd <- promotion_cast dest; do ps <- promotion_cast src;
+      do pd0 <- promotion_cast dest; do ps0 <- promotion_cast src;
+      (* D19/D21: the right operand of /= was already truncated to the target type; repaired: common type *)
+      do '(pd, ps) <- (match a with ADiv => if fx_divmod fx then cast_operands false pd0 ps0 else ret (pd0, ps0) | _ => ret (pd0, ps0) end);
       let o := match a with AAdd => RzIL.BAdd | ASub => RzIL.BSub | AMul => RzIL.BMul
                           | _ => if fx_divmod fx && vt_sg (pv_ty pd) then BSDiv else RzIL.BDiv end in
       ret (mkpv (arith_il_exec o (pv_ty pd) (pv_ty ps) (rd pd) (rd ps)) (pv_ty pd) KExec (pv_tmps pd ++ pv_tmps ps))
@@ -657,6 +662,7 @@ Definition has_tree (l : list item) : bool := existsb (fun i => match i with ITr
                                | _ => fail "assignment source" end);
         do '(dest', src') <- (match a with
                               | AMod | AShr | AShl => ret (dest, src)
+                              | ADiv => if fx_divmod fx then ret (dest, src) else cast_operands true dest src
                               | _ => cast_operands true dest src end);
         do src0 <- compound_src a dest' src';
         do src'' <- (match a with
@@ -677,10 +683,21 @@ Definition has_tree (l : list item) : bool := existsb (fun i => match i with ITr
         do ia <- lower_expr a;
         do p <- as_pure "postfix" ia;
         do _ <- need_numeric (pv_ty p);
+        (* the hybrid shares the operand's ValueType OBJECT; resolve_hybrid ORs HYBRID_LVAR into it, so
+           the flag ends up on the variable's / register's own type *)
         match pv_kind p with
         | KReg n =>
+            do s0 <- get;
+            do _ <- (match lookup_reg_info n (st_regs s0) with
+                     | Some ri => put (mkst (st_vars s0) (update_reg_info n (mkreg (r_op ri) (set_hybrid_vt (r_ty ri)) (r_acc ri) (r_x ri) (r_pc ri) (r_new ri)) (st_regs s0))
+                                            (st_pending s0) (st_hcount s0) (st_imms s0) (st_nonempty s0) (st_removed s0))
+                     | None => ret tt end);
             resolve_hybrid (pv_ty p) (rd p) (EWriteReg (RParam ("$reg:" +++ n)) (PIncDec inc (rd p) (vt_w (pv_ty p)))) false false (pv_tmps p) false
         | KVar n | KTmp n _ =>
+            do s0 <- get;
+            do _ <- (match lookup n (st_vars s0) with
+                     | Some (Some t) => set_var n (Some (set_hybrid_vt t))
+                     | _ => ret tt end);
             resolve_hybrid (pv_ty p) (rd p) (ESetL n (PIncDec inc (rd p) (vt_w (pv_ty p)))) false false (pv_tmps p) false
         | _ => fail "No scope letter given"
         end
